@@ -76,6 +76,18 @@ def is_next(c):
     return c.is_("next") and ("StreamExt" in n or "OrderedStreamExt" in n)
 
 
+def await_name(a):
+    """stable short name of what a suspension point awaits (callee name, or the wrapped body)"""
+    if a.call is not None:
+        return a.call.callee.split("::")[-1]
+    o = a.origin
+    if o and o[0] == "rv" and o[1][0] == "agg":
+        return "body " + str(o[1][2]).split("::")[-1]
+    if o and o[0] == "call":
+        return o[1].callee.split("::")[-1]
+    return "future"
+
+
 def fmt_held(h):
     return "; ".join("%s: %s" % (d, t[:70]) for d, t in h)
 
@@ -169,7 +181,7 @@ def check_config(ctx, f, tag):
                 for a in idle:
                     n_idle += 1
                     held = cf.strong_alive_at(f, g, a, S)
-                    ctx.ob("W-IDLE", tag + "idle:%s:await(%s)" % (g.id, a.awaited().split("::")[-1]), not held,
+                    ctx.ob("W-IDLE", tag + "idle:%s:await(%s)" % (g.id, await_name(a)), not held,
                            "no strong handle held while waiting" if not held else "held while idle: " + fmt_held(held), a.where)
                 if b.root != READER + "::spawn" and g is co:
                     ctx.ob("W-IDLE", tag + "waits-on-stream:" + g.id, bool(idle),
